@@ -8,6 +8,7 @@ mod c08;
 mod c09;
 mod c11;
 mod c14;
+mod c16;
 
 use vrt::Tier;
 
@@ -50,6 +51,7 @@ fn main() {
         "C04" => c04::main(&args),
         "C05" => c05::main(&args),
         "C11" => c11::main(&args),
+        "C16" => c16::main(&args),
         "C14" => c14::main(&args),
         "setup" => {
             // generate and build every quick-tier corpus so that the first quick check is fast
@@ -57,6 +59,7 @@ fn main() {
             for spec in corpus::all_specs(Tier::Quick) {
                 pkgs.extend(corpus::generate(&spec));
             }
+            pkgs.extend(c16::generate_body(Tier::Quick));
             if let Err(e) = corpus::build(&pkgs) {
                 eprintln!("setup: corpus build failed:\n{e}");
                 std::process::exit(2);
